@@ -43,17 +43,32 @@ def sqrti_part(rep, cands, timeout):
     eng = mirsym.Engine(mir, tt, timeout); pr = obl.Prover(max(timeout, 120000), common.seed()); pr.fresh_mode = True
     f = mir.funcs['sqrti']
     x = BitVec('x', 64)
+    def isqrt_stub(e, st, fr, callee, args, R):
+        # u64::isqrt by its defining property (128-bit products): r^2 <= a < (r+1)^2
+        a = args[0].t; r = BitVec('isqrt_result', 64); a128 = ZeroExt(64, a); r128_ = ZeroExt(64, r)
+        st.pc += [ULT(r, 1 << 32), ULE(r128_ * r128_, a128), ULT(a128, (r128_ + 1) * (r128_ + 1))]
+        return R(V(r, 'u64'))
+    eng.add_stub(r'<impl u64>::isqrt$', isqrt_stub)
     st = mirsym.State(); fr = mirsym.Frame(f); fr.tag = 'top'; st.frames.append(fr)
     for (p, _), v in zip(f.params, [x] + [BitVec(f'u{i}', 64) for i in range(4)]): fr.locals[p] = V(v, 'u64')
     paths = eng.explore(st)
     if len(paths) != 1 or paths[0].kind != 'return':
         rep.machinery_errors.append(f'sqrti: unexpected path structure {[p.kind for p in paths]}'); return
-    r_ = paths[0].payload.t
+    r_ = paths[0].payload.t; pc0 = list(paths[0].st.pc)
     # (1) the documented definition: truncate(sqrt_f64(x as f64)), for ALL 64-bit arguments
     fx = z3.fpUnsignedToFP(z3.RNE(), x, z3.Float64()); sq = z3.fpSqrt(z3.RNE(), fx)
     spec_r = z3.fpToUBV(z3.RTZ(), sq, z3.BitVecSort(64))
-    rr, m = pr.prove('sqrti:definition', [], r_ == spec_r, sample='sqrti(x) = trunc(fp.sqrt(RNE, u64->f64(RNE, x))) for all 64-bit x')
+    rr, m = pr.prove('sqrti:definition', pc0, r_ == spec_r, sample='sqrti(x) = trunc(fp.sqrt(RNE, u64->f64(RNE, x))) for all 64-bit x')
     if rr == 'sat': cands.append(dict(role='helpers/sqrti/definition', detail='not the truncated double-precision square root', model=dict(x=obl.mval(m, x)), friendly=True))
+    if rr == 'unknown':
+        # the general query did not finish (it is immediate when the body is the documented conversion chain, so the body changed): instantiate it at the
+        # boundary family where integer and floating-point roots part - k^2 - 1, k^2, 2^j, 2^j +- 1, for k = 2^i and 2^i +- 1 - each instance is a concrete query
+        fam = sorted({v for i in range(1, 33) for k in (2 ** i - 1, 2 ** i, 2 ** i + 1) for v in (k * k - 1, k * k, k * k + 1) if 0 <= v < 2 ** 64} | {2 ** j + dl for j in range(64) for dl in (-1, 0, 1)} | {2 ** 64 - 1})
+        for c_ in fam:
+            r2, m2 = pr.check(pc0 + [x == c_], [r_ != spec_r])
+            if r2 == 'sat':
+                cands.append(dict(role='helpers/sqrti/definition', detail=f'not the truncated double-precision square root (instance x = {c_} of the boundary family; the general query is undecided)', model=dict(x=c_), friendly=True)); break
+        rep.extra['sqrti_boundary_instances'] = len(fam)
     # (2) exact integer square root below the bound
     bound = 1 << (16 if common.tier() == 'quick' else 20)
     r128 = ZeroExt(64, r_); x128 = ZeroExt(64, x)
@@ -82,6 +97,9 @@ def replay_c19(c):
         d = Driver.get('dev'); r = d.request(dict(op='call_helper', name='sqrti', args=[str(md['x']), '0', '0', '0', '0']))
         c['replay'] = dict(call=f"sqrti({md['x']})", native=r)
         if r.get('status') != 'ok': return True, f"sqrti({md['x']}) {r.get('status')}"
+        if c['role'].endswith('/definition'):
+            want = min(int(math.sqrt(float(md['x']))), 2 ** 64 - 1)        # float(): u64 -> binary64 round-to-nearest-even; math.sqrt: correctly rounded; int(): truncation (saturating like `as u64`)
+            return (int(r['value']) != want), f"sqrti({md['x']}) = {r['value']}, truncated double-precision root {want}"
         return (int(r['value']) != math.isqrt(md['x'])), f"sqrti({md['x']}) = {r['value']}, integer root {math.isqrt(md['x'])}"
     return True, 'solver model'
 
